@@ -436,6 +436,16 @@ def run(ctx):
                       json.dumps({"method": rng.choice(["echo", "const0", "fail", "nosuch", "two"]),
                                   "params": [rng.randrange(100)], "id": rng.randrange(1, 1000)})
                       for _ in range(rng.choice([3, 6]))]
+            if rep == 1:
+                # methods that answer with one shared Fault object (an application's error constant), asked for in
+                # 1.0 and in 2.0 form at the same time: the object belongs to the application, each reply to its request
+                bodies = []
+                for i in range(6):
+                    e = {"method": rng.choice(["notready", "notready2"]), "params": [], "id": rng.randrange(1, 1000)}
+                    if i % 2:
+                        e["jsonrpc"] = "2.0"
+                    bodies.append(json.dumps(e))
+                ctx.count("first-use-histories-on-shared-fault-objects")
             inj.configure("none")
             for b in bodies:
                 fresh.reply(cfg, b)
